@@ -23,6 +23,7 @@ import (
 	"encoding/json"
 	"fmt"
 	"os"
+	"regexp"
 	"sort"
 	"strings"
 	"sync"
@@ -100,6 +101,9 @@ func allPaths() []string {
 			}
 			for _, c := range cur {
 				p := "/" + strings.Join(c, "/")
+				if strings.Contains(p, "//") {
+					continue // the kernel never reports paths with repeated separators; a final "" segment = directory
+				}
 				if !seen[p] {
 					seen[p] = true
 					res = append(res, p)
@@ -263,6 +267,45 @@ func refParse(s string) ([]node, string) {
 }
 
 // ------------------------------------------------------------------------------------------------
+// construct classes
+//
+// Constructs on which the pattern as a whole (matched by the doublestar library, which expands groups itself)
+// and its rendered variants (normalised by parsePatternVariant) are known to disagree. A pattern using one
+// of them is still checked, but its match/variant disagreements are reported once per (law, class) with the
+// smallest example, instead of once per input. A pattern using none of them is in the core domain.
+
+var escapedPair = regexp.MustCompile(`\\.`)
+var reWildBeforeFinalDoublestar = regexp.MustCompile(`[*?][^/]*/\*\*$`)
+var reStarBrace = regexp.MustCompile(`\*[{}]|[{}]\*`)
+
+func constructClass(raw string, expansions []string) string {
+	mask := func(x string) string { return escapedPair.ReplaceAllString(x, "EE") }
+	has := func(f func(e string) bool) bool {
+		for _, e := range expansions {
+			if f(mask(e)) {
+				return true
+			}
+		}
+		return false
+	}
+	switch {
+	case has(func(e string) bool { return strings.Contains(e, "//") }):
+		return "double-slash" // variants collapse repeated separators, doublestar does not
+	case has(func(e string) bool { return strings.Contains(e, "***") }):
+		return "three-or-more-stars" // '***' is reduced to '*', '****' to '**'; doublestar reads both as '*'
+	case reStarBrace.MatchString(mask(raw)):
+		return "star-next-to-brace" // doublestar classifies '**' before expanding groups, variants after
+	case has(func(e string) bool { return strings.Contains(e, "/**/**") }):
+		return "consecutive-doublestars" // '/**/**x' is reduced to '/*x'; doublestar does not special-case a final '/**/**'
+	case has(func(e string) bool { return strings.HasSuffix(e, "/**/*") }):
+		return "doublestar-star-at-end" // '/**/*' is reduced to '/**', which also matches the directory itself
+	case has(func(e string) bool { return reWildBeforeFinalDoublestar.MatchString(e) }):
+		return "wildcard-segment-before-final-doublestar" // doublestar: '/a*/**' does not match '/a' although '/a/**' does
+	}
+	return ""
+}
+
+// ------------------------------------------------------------------------------------------------
 // cases / violations
 
 type vCase struct {
@@ -277,11 +320,16 @@ type viol struct {
 	law, key, msg string
 	cs            vCase
 	size          int
+	class         bool // key names a class of inputs (law + construct), not one input
+	count         int
 }
 
+// collector: violations of a named construct class are merged under one key per (law, class) with the
+// smallest failing input as the replay case; other violations are keyed by the concrete input and, per law,
+// only the `keep` smallest are forwarded (all are counted). Deterministic whatever the goroutine schedule.
 type collector struct {
 	mu    sync.Mutex
-	byLaw map[string][]viol
+	byKey map[string]*viol
 	count map[string]int
 	keep  int
 }
@@ -296,47 +344,71 @@ func init() {
 }
 
 func newCollector(keep int) *collector {
-	return &collector{byLaw: map[string][]viol{}, count: map[string]int{}, keep: keep}
+	return &collector{byKey: map[string]*viol{}, count: map[string]int{}, keep: keep}
 }
 
-func violLess(a, b viol) bool {
+func violLess(a, b *viol) bool {
 	if a.size != b.size {
 		return a.size < b.size
 	}
-	return a.key < b.key
+	return a.key+a.msg < b.key+b.msg
 }
 
-// add keeps, per law, the `keep` smallest violating inputs (deterministic whatever the goroutine schedule).
-func (c *collector) add(law, id, msg string, cs vCase) {
-	v := viol{law: law, key: law + ":" + strings.ReplaceAll(id, " ", "␣"), msg: msg, cs: cs, size: len(id)}
+func (c *collector) add(law, id, msg string, cs vCase) { c.addClass(law, "", id, msg, cs) }
+
+// addClass: class == "" means the input belongs to no known construct class (concrete key).
+func (c *collector) addClass(law, class, id, msg string, cs vCase) {
+	v := &viol{law: law, msg: msg, cs: cs, size: len(id), count: 1}
+	if class != "" {
+		v.key, v.class = law+":class:"+class, true
+	} else {
+		v.key = law + ":" + strings.ReplaceAll(id, " ", "␣")
+	}
 	c.mu.Lock()
 	defer c.mu.Unlock()
 	c.count[law]++
 	if dumpFile != nil {
-		fmt.Fprintf(dumpFile, "%s\t%s\t%s\t%s\t%s\n", law, cs.Pattern, cs.Other, cs.Path, strings.Join(cs.Variants, " "))
+		fmt.Fprintf(dumpFile, "%s\t%s\t%s\t%s\t%s\t%s\n", law, class, cs.Pattern, cs.Other, cs.Path, strings.Join(cs.Variants, " "))
 	}
-	l := c.byLaw[law]
-	for _, x := range l {
-		if x.key == v.key {
-			return
-		}
+	old := c.byKey[v.key]
+	if old == nil {
+		c.byKey[v.key] = v
+		return
 	}
-	l = append(l, v)
-	sort.Slice(l, func(i, j int) bool { return violLess(l[i], l[j]) })
-	if len(l) > c.keep {
-		l = l[:c.keep]
+	old.count++
+	if violLess(v, old) {
+		v.count = old.count
+		c.byKey[v.key] = v
 	}
-	c.byLaw[law] = l
 }
 
 func (c *collector) flush(r *eng.Run) {
-	for law, l := range c.byLaw {
-		for _, v := range l {
-			r.Violation(v.key, fmt.Sprintf("%s (law %s: %d violating inputs in this run)", v.msg, law, c.count[law]), v.cs)
+	perLaw := map[string][]*viol{}
+	for _, v := range c.byKey {
+		if v.class {
+			r.Violation(v.key, fmt.Sprintf("%s (%d inputs of this class fail this law in this run)", v.msg, v.count), v.cs)
+		} else {
+			perLaw[v.law] = append(perLaw[v.law], v)
+		}
+	}
+	for law, l := range perLaw {
+		sort.Slice(l, func(i, j int) bool { return violLess(l[i], l[j]) })
+		for i, v := range l {
+			if i >= c.keep {
+				break
+			}
+			r.Violation(v.key, fmt.Sprintf("%s (law %s: %d violating inputs outside the named classes in this run)", v.msg, law, len(l)), v.cs)
 		}
 	}
 	if len(c.count) > 0 {
 		r.Info("violating_inputs_per_law", c.count)
+		classes := map[string]int{}
+		for _, v := range c.byKey {
+			if v.class {
+				classes[v.key] = v.count
+			}
+		}
+		r.Info("violating_inputs_per_class", classes)
 	}
 }
 
@@ -412,6 +484,7 @@ type patResult struct {
 	valid    bool
 	pp       *patterns.PathPattern
 	variants []string
+	class    string // construct class ("" = core domain)
 }
 
 // checkPattern: validity, counts, expansion laws for one pattern (no paths yet).
@@ -468,6 +541,11 @@ func (c *checker) checkPattern(p pat) (res patResult) {
 		c.col.add("count-vs-reference", p.s, fmt.Sprintf("%q: NumVariants()=%d; reference expansion has %d distinct strings, %d counting repeats", p.s, n, distinct, raw), cs)
 	}
 	res = patResult{valid: true, pp: pp}
+	if exp != nil {
+		res.class = constructClass(p.s, exp)
+	} else {
+		res.class = "too-many-expansions-to-classify"
+	}
 	got := map[string]bool{}
 	for _, v := range vs {
 		got[v.String()] = true
@@ -535,8 +613,15 @@ func (c *checker) checkVariantPaths(vi *variantInfo) (evals int64) {
 				vCase{Kind: "variant", Pattern: vs, Path: path})
 		}
 		if rm && !dm {
-			c.col.add("regex-matches-more", vs+"@"+path, fmt.Sprintf("variant %q does not match %q (PathPatternMatches) but its own regex does", vs, path),
-				vCase{Kind: "variant", Pattern: vs, Path: path})
+			// not judged: Compare is only defined on variants that match the path; recorded per construct class
+			cl := constructClass(vs, []string{vs})
+			if cl == "" {
+				cl = "core"
+			}
+			c.r.Add("observed_regex_matches_where_doublestar_does_not:"+cl, 1)
+			if cl == "core" && c.r.WantSample() {
+				c.r.Distinct("observed_regex_only_core_example", vs+"@"+path)
+			}
 		}
 	}
 	return evals
@@ -577,10 +662,10 @@ func (c *checker) checkPatternPaths(p pat, res patResult) (evals, matched int64)
 			matched++
 		}
 		if m0 && !m1 {
-			c.col.add("match-without-variant", p.s+"@"+path, fmt.Sprintf("pattern %q matches %q but none of its variants %v does", p.s, path, res.variants), vCase{Kind: "pattern", Pattern: p.s, Path: path})
+			c.col.addClass("match-without-variant", res.class, p.s+"@"+path, fmt.Sprintf("pattern %q matches %q but none of its variants %v does", p.s, path, res.variants), vCase{Kind: "pattern", Pattern: p.s, Path: path})
 		}
 		if m1 && !m0 {
-			c.col.add("variant-without-match", p.s+"@"+path, fmt.Sprintf("variant %q of pattern %q matches %q but the pattern does not", by, p.s, path), vCase{Kind: "pattern", Pattern: p.s, Path: path})
+			c.col.addClass("variant-without-match", res.class, p.s+"@"+path, fmt.Sprintf("variant %q of pattern %q matches %q but the pattern does not", by, p.s, path), vCase{Kind: "pattern", Pattern: p.s, Path: path})
 		}
 	}
 	return evals, matched
@@ -741,7 +826,13 @@ func (c *checker) checkPrecedence(path string, vs []patterns.PatternVariant, tri
 func generalisations(tokens []string) []string {
 	var out []string
 	repl := map[string][]string{"/a": {"/?", "/*"}, "/b": {"/?", "/*"}, "b": {"?", "*"}, "?": {"*"}}
+	wild := map[string]bool{"?": true, "*": true, "**": true, "/**": true}
 	for i, t := range tokens {
+		if i > 0 && wild[tokens[i-1]] {
+			// once a wildcard precedes, "earliest restriction" may legitimately rank the widened pattern
+			// higher (e.g. /*b vs /*? = /?*): the law is only claimed while the prefixes consume the same text
+			break
+		}
 		for _, g := range repl[t] {
 			s := strings.Join(tokens[:i], "") + g + strings.Join(tokens[i+1:], "")
 			out = append(out, s)
@@ -896,12 +987,10 @@ func TestC37(t *testing.T) {
 			eng.HarnessError("unknown case kind %q", cs.Kind)
 		}
 		// in a replay only violations that concern the stored input are of interest
-		for law, l := range col.byLaw {
-			for _, v := range l {
-				if cs.Path == "" || v.cs.Path == "" || v.cs.Path == cs.Path {
-					fmt.Printf("  %s: %s\n", law, v.msg)
-					r.Violation(v.key, v.msg, v.cs)
-				}
+		for _, v := range col.byKey {
+			if cs.Path == "" || v.cs.Path == "" || v.cs.Path == cs.Path {
+				fmt.Printf("  %s: %s\n", v.law, v.msg)
+				r.Violation(v.key, v.msg, v.cs)
 			}
 		}
 		r.Finish("replay")
